@@ -772,3 +772,44 @@ End IsortOk.
 
 Lemma ord_ok_of_nat L : ord_ok N.of_nat L.
 Proof. split; intros; lia. Qed.
+
+(* ===================== the partition does not depend on the leaf numbering *)
+
+Section OrdIndep.
+  Variable A : arith.
+  Variable D npts : nat.
+  Variable wts : list (num A).
+  Variable sorter : nat -> list nat -> list nat.
+  Variable blk : list nat -> list nat.
+  Variable cxlt : nat -> nat -> nat -> bool.
+  Hypothesis Hsort : sorter_ok sorter cxlt.
+
+  (* two schedules (leaf orders) give the same partition up to the names of
+     the parts: two elements share an id under one iff they do under the other *)
+  Lemma mj_ord_indep sch parts d ord1 ord2 p0 p1 p2 :
+    WfScheme A sch parts d -> ord_ok ord1 (N.to_nat parts) -> ord_ok ord2 (N.to_nat parts) ->
+    length p0 = npts ->
+    mj_with_scheme A D npts wts sorter blk ord1 sch p0 = Ok p1 ->
+    mj_with_scheme A D npts wts sorter blk ord2 sch p0 = Ok p2 ->
+    forall x y, (x < npts)%nat -> (y < npts)%nat ->
+      (nth_opt p1 x = nth_opt p1 y <-> nth_opt p2 x = nth_opt p2 y).
+  Proof.
+    intros W [_ I1] [_ I2] Hl H1 H2 x y Hx Hy. unfold mj_with_scheme in H1, H2.
+    apply bind_ok in H1 as [lvs [Hrec H1]]. rewrite Hrec in H2. cbn [bind] in H2.
+    destruct (mj_rec_spec A D npts wts sorter blk cxlt (fun _ => 0) Hsort sch parts d W 0%nat (seq 0 npts) lvs Hrec)
+      as [L [Q _]].
+    rewrite (WfScheme_leaves A sch parts d W) in L.
+    assert (Hnd : NoDup (concat lvs)).
+    { eapply Permutation_NoDup; [apply Permutation_sym; exact Q|apply seq_NoDup]. }
+    apply write_leaves_spec in H1 as [_ [A1 _]]; [|exact Hnd].
+    apply write_leaves_spec in H2 as [_ [A2 _]]; [|exact Hnd].
+    assert (Hin : forall z, (z < npts)%nat -> exists i l, nth_error lvs i = Some l /\ In z l /\ (i < N.to_nat parts)%nat).
+    { intros z Hz. assert (Hz' : In z (concat lvs)).
+      { eapply Permutation_in; [apply Permutation_sym; exact Q|]. apply in_seq. lia. }
+      apply in_concat in Hz' as [l [Hl' Hzl]]. apply In_nth_error in Hl' as [i Hi].
+      exists i, l. split; [exact Hi|]. split; [exact Hzl|]. rewrite <- L. apply nth_error_Some. congruence. }
+    destruct (Hin x Hx) as [i [li [Ei [Xi Li]]]]. destruct (Hin y Hy) as [j [lj [Ej [Yj Lj]]]].
+    rewrite (A1 i li Ei x Xi), (A1 j lj Ej y Yj), (A2 i li Ei x Xi), (A2 j lj Ej y Yj). cbn [Nat.add].
+    split; intros E; inversion E as [E']; [apply I1 in E'|apply I2 in E']; try lia; subst; reflexivity.
+  Qed.
+End OrdIndep.
